@@ -72,10 +72,12 @@ func check(c Case, rs *runState, obs observation) []finding {
 		// nothing was set by the handler; the only application metadata is the caller's
 		if len(c.Req) > 0 {
 			out = append(out, finding{"request", "incoming", "not-delivered", c.Req[0].Key, fmt.Sprintf("the call never reached the handler: %v", obs.callErr)})
+		} else if len(c.Creds) > 0 {
+			out = append(out, finding{"request", "incoming", "not-delivered", c.Creds[0].Key, fmt.Sprintf("the call never reached the handler: %v", obs.callErr)})
 		}
 		return out
 	}
-	out = append(out, contains("request", "incoming", mdOf(c.Req), rs.incoming)...)
+	out = append(out, containsRequest(c, rs.incoming)...)
 	for _, r := range rs.refused {
 		pos := "header"
 		if strings.Contains(r, "Trailer") {
@@ -289,11 +291,37 @@ func (m *minimiser) verdict(c Case, pos string) verdict {
 	return v
 }
 
+// With per-RPC credentials in play, whether a damaged merge shows as a missing key, a wrong number of values or
+// wrong bytes only depends on whether the credentials share the key with the caller; cases with credentials are
+// therefore minimised towards "the handler's incoming metadata is damaged" (the fingerprint still carries the exact
+// clause of the representative).
+const damagedIncoming = "damaged@incoming"
+
+func coarsenRequest(els []string) []string {
+	var out []string
+	seen := false
+	for _, e := range els {
+		switch e {
+		case "missing@incoming", "count@incoming", "bytes@incoming":
+			if !seen {
+				out = append([]string{damagedIncoming}, out...)
+				seen = true
+			}
+		default:
+			out = append(out, e)
+		}
+	}
+	return out
+}
+
 // match: does the candidate show the same failure as the target? Every element
 // of the target whose kind of observation point exists in the candidate (no
 // Header()/Trailer() on unary calls, no option target with opts=0) must be
 // among the candidate's, and there must be at least one such element.
 func match(cand Case, candEl, target []string) bool {
+	if len(target) > 0 && target[0] == damagedIncoming {
+		candEl = coarsenRequest(candEl)
+	}
 	have := map[string]bool{}
 	for _, e := range candEl {
 		have[e] = true
@@ -336,6 +364,35 @@ func posMode(c *Case, pos string) (*string, string) {
 	return &c.TrlMode, baseTrlMode
 }
 
+// credsRepeatCaller: do the credentials produce, under a key the caller's metadata has too, a value the caller has there?
+func credsRepeatCaller(c Case) bool {
+	for _, ce := range c.Creds {
+		for _, e := range c.Req {
+			if e.Key != ce.Key {
+				continue
+			}
+			for _, id := range e.Vals {
+				if id == ce.Vals[0] {
+					return true
+				}
+			}
+		}
+	}
+	return false
+}
+
+func uncollide(d *Case) {
+	for i := range d.Creds {
+		one := Case{Req: d.Req, Creds: d.Creds[i : i+1]}
+		for _, alt := range alphaOf(d.Creds[i].Key) {
+			if !credsRepeatCaller(one) {
+				break
+			}
+			d.Creds[i].Vals[0] = alt.ID
+		}
+	}
+}
+
 // minimise returns ok=false when the failure of c itself does not reproduce.
 func (m *minimiser) minimise(c Case, pos string, target []string) (Case, bool) {
 	c = c.clone()
@@ -344,6 +401,15 @@ func (m *minimiser) minimise(c Case, pos string, target []string) (Case, bool) {
 		mut(&d)
 		if d.key() == c.key() {
 			return false
+		}
+		if !credsRepeatCaller(c) && credsRepeatCaller(d) {
+			// never simplify the credentials' value into one the caller has under the same key (or the other way
+			// round): "the merge loses a value" and "the merge drops a repeated value" must not meet in one input.
+			// The credentials move on to the simplest value the caller does not have there.
+			uncollide(&d)
+			if d.key() == c.key() {
+				return false
+			}
 		}
 		if m.fails(d, pos, target) {
 			c = d
@@ -361,8 +427,14 @@ func (m *minimiser) minimise(c Case, pos string, target []string) (Case, bool) {
 			*mode = base
 		}
 		d.Fail, d.NResp, d.HdrFirst, d.Opts = false, 0, true, 1
+		if pos != "request" {
+			d.Creds, d.CredsUpper = nil, false // the credentials are part of the request position
+		}
 	}
 	if !try(baseline) {
+		if pos != "request" {
+			try(func(d *Case) { d.Creds, d.CredsUpper = nil, false })
+		}
 		for _, p := range positions {
 			p := p
 			if p != pos {
@@ -477,7 +549,141 @@ func (m *minimiser) minimise(c Case, pos string, target []string) (Case, bool) {
 			}
 		}
 	}
+	// 2b. the credentials' metadata (request position only): not needed at all, lower-case keys, one key, no
+	// caller metadata next to it, simplest value, and the simplest key -- renamed together with the caller's
+	// entry of the same key, because what matters may be that the two share it
+	hasKey := func(m []KV, k string) bool {
+		for _, e := range m {
+			if e.Key == k {
+				return true
+			}
+		}
+		return false
+	}
+	shrinkCreds := func() bool {
+		any := false
+		for changed := true; changed && len(c.Creds) > 0; {
+			changed = false
+			step := func(mut func(*Case)) bool {
+				if try(mut) {
+					changed, any = true, true
+				}
+				return changed
+			}
+			if step(func(d *Case) { d.Creds, d.CredsUpper = nil, false }) {
+				continue
+			}
+			if c.CredsUpper && step(func(d *Case) { d.CredsUpper = false }) {
+				continue
+			}
+			if len(c.Creds) > 1 {
+				for i := range c.Creds {
+					i := i
+					if step(func(d *Case) { d.Creds = []KV{d.Creds[i]} }) {
+						break
+					}
+				}
+				if changed {
+					continue
+				}
+				for i := range c.Creds {
+					i := i
+					if step(func(d *Case) { d.Creds = append(d.Creds[:i:i], d.Creds[i+1:]...) }) {
+						break
+					}
+				}
+				if changed {
+					continue
+				}
+			}
+			if len(c.Req) > 0 && step(func(d *Case) { d.Req, d.ReqMode = nil, baseReqMode }) {
+				continue
+			}
+			if credsRepeatCaller(c) {
+				// is it needed that the credentials repeat a value of the caller's?
+				for e, ce := range c.Creds {
+					e := e
+					for _, alt := range alphaOf(ce.Key) {
+						alt := alt
+						probe := c.clone()
+						probe.Creds[e].Vals[0] = alt.ID
+						probe.Creds = probe.Creds[e : e+1]
+						if credsRepeatCaller(probe) {
+							continue
+						}
+						if step(func(d *Case) { d.Creds[e].Vals[0] = alt.ID }) {
+							break
+						}
+					}
+					if changed {
+						break
+					}
+				}
+				if changed {
+					continue
+				}
+			}
+			for e, ce := range c.Creds {
+				e := e
+				for j := 0; j < valIndex(ce.Key, ce.Vals[0]); j++ {
+					simpler := alphaOf(ce.Key)[j].ID
+					if step(func(d *Case) { d.Creds[e].Vals[0] = simpler }) {
+						break
+					}
+				}
+				if changed {
+					break
+				}
+				rename := func(to string, plain bool) func(*Case) {
+					from := ce.Key
+					return func(d *Case) {
+						d.Creds[e].Key = to
+						if plain {
+							d.Creds[e].Vals[0] = "v"
+							if !credsRepeatCaller(c) {
+								d.Creds[e].Vals[0] = "a_b"
+							}
+						}
+						for i := range d.Req {
+							if d.Req[i].Key == from {
+								d.Req[i].Key = to
+								if plain {
+									for x := range d.Req[i].Vals {
+										d.Req[i].Vals[x] = "v"
+									}
+								}
+							}
+						}
+					}
+				}
+				// (renaming onto a key of the caller's is fine unless the caller's entry of this key moves along onto it)
+				free := func(to string) bool {
+					return !hasKey(c.Creds, to) && !(hasKey(c.Req, to) && hasKey(c.Req, ce.Key))
+				}
+				if isBin(ce.Key) && free("k") && step(rename("k", true)) {
+					break
+				}
+				for _, k := range sameTypeKeys(ce.Key) {
+					if k == ce.Key {
+						break
+					}
+					if free(k) && step(rename(k, false)) {
+						break
+					}
+				}
+				if changed {
+					break
+				}
+			}
+		}
+		return any
+	}
 	shrink(pos)
+	if pos == "request" {
+		for shrinkCreds() {
+			shrink(pos)
+		}
+	}
 	for _, q := range positions {
 		if q != pos && len(*posMap(&c, q)) > 0 {
 			shrink(q)
@@ -665,6 +871,9 @@ func (m *minimiser) fingerprint(c Case, pos string, target []string) (fp string,
 			mods = append(mods, "with-"+p+"{"+kvString(*posMap(&rep, p))+"}")
 		}
 	}
+	if len(rep.Creds) > 0 {
+		mods = append(mods, "creds{"+rep.credsString()+"}")
+	}
 	if rep.Opts != 1 {
 		mods = append(mods, fmt.Sprintf("opts=%d", rep.Opts))
 	}
@@ -685,5 +894,5 @@ func (m *minimiser) fingerprint(c Case, pos string, target []string) (fp string,
 }
 
 func payloadKey(c Case) string {
-	return kvString(c.Req) + "|" + kvString(c.Hdr) + "|" + kvString(c.Trl)
+	return kvString(c.Req) + "|" + kvString(c.Hdr) + "|" + kvString(c.Trl) + "|" + c.credsString()
 }
